@@ -903,7 +903,7 @@ def step1(ctx, prop, cov, findings):
 
 def _step1(ctx, cov):
     jobs = list(simenv.JOBS)
-    variants = [0] if not ctx.thorough else [0, 1, 2]
+    variants = [0, 3] if not ctx.thorough else [0, 1, 2, 3]      # 3 = the all-zero corner of the level space
     systems, pybad, inits, viewdata = [], [], {}, {}
     try:
         for job in jobs:
